@@ -126,6 +126,9 @@ fn ctype_value(class: &str, v: usize) -> Option<&'static str> {
         "text_latin1" => Some(pick(&["text/plain; charset=iso-8859-1", "text/plain; charset=windows-1252", "text/plain;charset=latin1"], v)),
         "text_unknown_charset" => Some(pick(&["text/plain; charset=klingon", "text/plain; charset=x-nope"], v)),
         "binary" => Some(pick(&["application/octet-stream", "image/png"], v)),
+        "text_utf16le" => Some(pick(&["text/plain; charset=utf-16le", "text/html;charset=UTF-16LE"], v)),
+        "text_2022jp" => Some(pick(&["text/plain; charset=iso-2022-jp", "text/plain; charset=csISO2022JP"], v)),
+        "text_replacement" => Some(pick(&["text/plain; charset=iso-2022-kr", "text/plain; charset=hz-gb-2312"], v)),
         other => panic!("ctype {other}"),
     }
 }
@@ -172,9 +175,34 @@ fn fidelity<B>(resp: &crux_http::Response<B>, sent: &[(String, String)]) -> Vec<
     problems
 }
 
+/// bodies for charsets that are not ASCII-compatible, with what a conforming decoder yields
+fn enc_specific(ctype: &str, v: usize) -> (Vec<u8>, Option<&'static str>) {
+    match ctype {
+        "text_utf16le" => [
+            (vec![0x68, 0x00, 0x69, 0x00], Some("hi")),
+            (vec![0x41, 0x00, 0xe9, 0x00], Some("A\u{e9}")),
+            (vec![0x3c, 0x00, 0x62, 0x00, 0x3e, 0x00], Some("<b>")),
+        ][v % 3]
+            .clone(),
+        "text_2022jp" => [
+            (vec![0x1b, 0x24, 0x42, 0x30, 0x21, 0x1b, 0x28, 0x42], Some("\u{4e9c}")),
+            (b"abc".to_vec(), Some("abc")),
+            (vec![0x41, 0x1b, 0x24, 0x42, 0x30, 0x21, 0x1b, 0x28, 0x42, 0x42], Some("A\u{4e9c}B")),
+        ][v % 3]
+            .clone(),
+        _ => (b"<b>abc</b>".to_vec(), None),
+    }
+}
+
 fn run_http_outcome(inp: &Value, v: usize) -> Value {
     let status = inp["status"].as_u64().unwrap() as u16;
-    let body = body_bytes(inp["body"].as_str().unwrap(), v);
+    let ctype_class = inp["ctype"].as_str().unwrap();
+    let (body, enc_want) = if inp["body"] == "enc_specific" {
+        let (b, w) = enc_specific(ctype_class, v);
+        (b, w.map(str::to_string))
+    } else {
+        (body_bytes(inp["body"].as_str().unwrap(), v), None)
+    };
     let mut headers = extra_headers(inp["hdrs"].as_str().unwrap(), v);
     if let Some(ct) = ctype_value(inp["ctype"].as_str().unwrap(), v) {
         headers.push(("Content-Type".into(), ct.into()));
@@ -197,7 +225,7 @@ fn run_http_outcome(inp: &Value, v: usize) -> Value {
     let sent_body = body.clone();
     // what a conforming decoder yields
     let utf8_claimed = matches!(inp["ctype"].as_str().unwrap(), "none" | "json" | "text_utf8" | "binary");
-    let want_string = if utf8_claimed { String::from_utf8(body.clone()).ok() } else { None };
+    let want_string = if utf8_claimed { String::from_utf8(body.clone()).ok() } else { enc_want.clone() };
     let summarize = move |kind: &str, r: Value, problems: Vec<String>| -> String {
         json!({"expect": kind, "class": r, "problems": problems}).to_string()
     };
